@@ -55,7 +55,8 @@ func runRepeat(bi *buildInfo, rc *repeatCase) (outs []string, exits []int) {
 	gmps := []int{1, 4, 16, 2, 8, 16}
 	concs := []string{"1", "4", "200", "2", "16", "3"}
 	for k := 0; k < rc.Repeats; k++ {
-		args := append([]string{"check", "-enableAll", "-checkGenerated=true", "-concurrency=" + concs[k%len(concs)]}, rc.Args...)
+		args := append([]string{"check", "-enableAll", "-checkGenerated=true", "-concurrency=" + concs[k%len(concs)],
+			"-@ruleguard.rules=" + filepath.Join(verifDir(), "sim", "rules", "probe_*.go")}, rc.Args...)
 		args = append(args, rc.Target)
 		cmd := exec.Command(filepath.Join(bi.Dir, "frontends", "go-critic"), args...)
 		cmd.Dir = rc.Dir
